@@ -108,6 +108,14 @@ def _case(t):
     d = case_dir('c06')
     try:
         root = os.path.dirname(d)
+        # a tree that hangs on most inputs would keep 16 workers busy for hours: once enough hangs are on record the rest is skipped
+        # (the run is lost anyway: it ends with VIOLATION lines and exit 1)
+        hang_log = os.path.join(root, 'c06-hangs.log')
+        try:
+            if os.path.getsize(hang_log) >= HANG_BUDGET:
+                return (cid, 'skipped-after-many-hangs', None, 0, None, None, '', '')
+        except OSError:
+            pass
         cfg = _cfg(cfgname, root)
         b = build.binary('asan')
         args = ['-c', cfg, '-l', lang] + (['-q'] if quiet else [])
@@ -120,6 +128,9 @@ def _case(t):
             res = run.run(b, args + ['-f', src], cwd=d, kind='asan')
         v = judge(res, quiet, data)
         locus = None
+        if v and v[0] == 'hang':
+            with open(hang_log, 'a') as f:
+                f.write('x')
         if v and v[0] in ('hang', 'signal'):
             # confirm on the plain binary and take the stack there
             pb = build.binary('plain')
@@ -134,7 +145,7 @@ def _case(t):
                                       seconds=4 if v[0] == 'hang' else 15, pass_level=(v[0] == 'hang'))
                 if v[0] == 'signal':
                     locus = v[1].strip() + ' @ ' + locus
-                elif locus in ('pass align_all', 'pass indent_text', 'pass do_code_width') and 'code_width' in cfg_text(cfgname):
+                elif locus.split(' > ')[0] in ('pass align_all', 'pass indent_text', 'pass do_code_width') and 'code_width' in cfg_text(cfgname):
                     # these three passes run inside the driver's unbounded 'while (old_changes != cpd.changes)' width loop: a livelock of
                     # that loop is sampled in any of them, so they share one key
                     locus = 'width-loop (align_all/indent_text/do_code_width)'
@@ -144,6 +155,7 @@ def _case(t):
         shutil.rmtree(d, ignore_errors=True)
 
 
+HANG_BUDGET = 24       # bytes = hangs recorded before the remaining cases of a run are skipped
 MUT_UNIVERSE = 200000
 CUTS_PER_FILE = 4
 
@@ -275,6 +287,8 @@ def check(ctx):
         kind = re.sub(r'\d+$', '', cid.split(':')[0])
         ctx.count('cases_' + kind)
         ctx.count('end_' + how)
+        if how == 'skipped-after-many-hangs':
+            continue
         if v is None:
             ctx.nt(cid)
             if status == 0:
